@@ -16,6 +16,12 @@ exactly the numbers the NumPy code sees; a complex entry is a pair `[re, im]` of
 One JSON answer per line: `iters` (= i - 1), `iterations` (info), per member the trimmed `Q`
 (columns), `diag` (`beta` of the code), `sub` (`alpha` of the code), the untrimmed `diag_full`,
 `sub_full`, and `errors` (info).
+
+With `"eigs": true` (one start vector) the answer also contains the result of the model's `lanczosEigs`
+(`eigvals`, `eigvecs` = columns) computed with `eigh := eighJacobi` (cyclic Jacobi rotations on the real
+parts of the dense tridiagonal matrix — an EXECUTABLE stand-in for LAPACK; the theorems only need the
+contract `T y_j = θ_j y_j`), together with `eigh_residual` = max_j ‖T y_j − θ_j y_j‖_∞ / max(1, ‖T‖_max),
+the measured defect of that contract on this very run, and `eigh_orth` = max |YᵀY − 1|.
 -/
 
 open Lean (Json)
@@ -53,7 +59,79 @@ instance : Codec CF where
 def decVec (K : Type) [Codec K] (j : Json) : E (Array K) := do (← jArr j).mapM Codec.dec
 def encVec {K : Type} [Codec K] (v : Array K) : Json := Json.arr (v.map Codec.enc)
 
-def runCase (K : Type) [Num K] [Codec K] (ofFloat : Float → K) (j : Json) : E Json := do
+
+/-! ## an executable `eigh` for the driver: cyclic Jacobi on a real symmetric matrix -/
+
+def mget (S : Array (Array Float)) (i j : Nat) : Float := (S.getD i #[]).getD j 0.0
+def mset (S : Array (Array Float)) (i j : Nat) (x : Float) : Array (Array Float) :=
+  S.modify i (fun r => r.setIfInBounds j x)
+
+/-- one rotation in the `(p, q)` plane applied to `S` (two-sided) and to `V` (columns) -/
+def jacobiRot (k p q : Nat) (SV : Array (Array Float) × Array (Array Float)) :
+    Array (Array Float) × Array (Array Float) :=
+  let S := SV.1
+  let V := SV.2
+  let spq := mget S p q
+  if spq == 0.0 then SV else
+  let th := (mget S q q - mget S p p) / (2.0 * spq)
+  let t := (if th >= 0.0 then 1.0 else -1.0) / (th.abs + Float.sqrt (th * th + 1.0))
+  let c := 1.0 / Float.sqrt (t * t + 1.0)
+  let s := t * c
+  -- columns p, q of S
+  let S1 := (List.range k).foldl (fun (S : Array (Array Float)) i =>
+    let a := mget S i p
+    let b := mget S i q
+    mset (mset S i p (c * a - s * b)) i q (s * a + c * b)) S
+  -- rows p, q of S
+  let S2 := (List.range k).foldl (fun (S : Array (Array Float)) j =>
+    let a := mget S p j
+    let b := mget S q j
+    mset (mset S p j (c * a - s * b)) q j (s * a + c * b)) S1
+  let V1 := (List.range k).foldl (fun (V : Array (Array Float)) i =>
+    let a := mget V i p
+    let b := mget V i q
+    mset (mset V i p (c * a - s * b)) i q (s * a + c * b)) V
+  (S2, V1)
+
+def offNorm (k : Nat) (S : Array (Array Float)) : Float :=
+  (List.range k).foldl (fun acc i => (List.range k).foldl (fun acc j =>
+    if i == j then acc else acc + mget S i j * mget S i j) acc) 0.0
+
+/-- eigenvalues (ascending) and eigenvector columns of a real symmetric matrix (array of rows) -/
+def eighJacobi (S0 : Array (Array Float)) : Array Float × Array (Array Float) :=
+  let k := S0.size
+  let I : Array (Array Float) := (Array.range k).map fun i => (Array.range k).map fun j =>
+    if i == j then 1.0 else 0.0
+  let pairs : List (Nat × Nat) :=
+    (List.range k).flatMap fun p => ((List.range k).filter (fun q => p < q)).map fun q => (p, q)
+  let sweep (SV : Array (Array Float) × Array (Array Float)) := pairs.foldl (fun SV pq => jacobiRot k pq.1 pq.2 SV) SV
+  let rec go (fuel : Nat) (SV : Array (Array Float) × Array (Array Float)) :=
+    match fuel with
+    | 0 => SV
+    | f + 1 => if offNorm k SV.1 == 0.0 then SV else go f (sweep SV)
+  let SV := go 40 (S0, I)
+  let vals : Array Float := (Array.range k).map fun i => mget SV.1 i i
+  -- ascending order (insertion sort of the indices)
+  let idx : List Nat := (List.range k).foldr (fun j acc =>
+    let rec ins : List Nat → List Nat
+      | [] => [j]
+      | h :: t => if vals.getD j 0.0 < vals.getD h 0.0 then j :: h :: t else h :: ins t
+    ins acc) []
+  (idx.toArray.map fun j => vals.getD j 0.0,
+   idx.toArray.map fun j => (Array.range k).map fun i => mget SV.2 i j)
+
+class RealPart (K : Type) where
+  toF : K → Float
+  ofF : Float → K
+instance : RealPart Float := ⟨id, id⟩
+instance : RealPart CF := ⟨fun a => a.re, fun x => ⟨x, 0.0⟩⟩
+
+/-- `eigh` of the model at scalar type `K`: Jacobi on the real parts -/
+def eighK (K : Type) [RealPart K] (D : Array (Array K)) : Array K × Array (Array K) :=
+  let r := eighJacobi (D.map fun row => row.map RealPart.toF)
+  (r.1.map RealPart.ofF, r.2.map fun col => col.map RealPart.ofF)
+
+def runCase (K : Type) [Num K] [Codec K] [RealPart K] (ofFloat : Float → K) (j : Json) : E Json := do
   let n ← jNat (← field j "n")
   let A ← (← jArr (← field j "A")).mapM (decVec K)
   let starts ← (← jArr (← field j "starts")).mapM (decVec K)
@@ -63,7 +141,31 @@ def runCase (K : Type) [Num K] [Codec K] (ofFloat : Float → K) (j : Json) : E 
     throw "shape mismatch"
   let z : Array K := Array.replicate n Num.zero
   let o := lanczos (K := K) (V := Array K) (matVec A) n z starts maxIters tol
-  pure <| Json.mkObj [
+  let wantEigs : Bool := match j.getObjVal? "eigs" with | .ok (.bool true) => true | _ => false
+  let eigsFields : List (String × Json) :=
+    if wantEigs && starts.size == 1 then
+      let res := lanczosEigs (K := K) (V := Array K) (eighK K) (matVec A) n z (starts.getD 0 #[]) maxIters tol
+      -- the measured defect of the `eigh` contract on this run
+      let T : Array (Array Float) :=
+        (tridiagDense (o.alpha.getD 0 #[]) (o.beta.getD 0 #[])).map fun row => row.map RealPart.toF
+      let e := eighJacobi T
+      let k := T.size
+      let tmax := T.foldl (fun acc row => row.foldl (fun acc x => if x.abs > acc then x.abs else acc) acc) 1.0
+      let resid := (List.range k).foldl (fun acc jj =>
+        let y := e.2.getD jj #[]
+        let th := e.1.getD jj 0.0
+        (List.range k).foldl (fun acc a =>
+          let ty := (List.range k).foldl (fun t c => t + mget T a c * y.getD c 0.0) 0.0
+          let d := (ty - th * y.getD a 0.0).abs
+          if d > acc then d else acc) acc) 0.0
+      let orth := (List.range k).foldl (fun acc a => (List.range k).foldl (fun acc b =>
+        let g := (List.range k).foldl (fun t c => t + (e.2.getD a #[]).getD c 0.0 * (e.2.getD b #[]).getD c 0.0) 0.0
+        let d := (g - (if a == b then 1.0 else 0.0)).abs
+        if d > acc then d else acc) acc) 0.0
+      [("eigvals", encVec res.1), ("eigvecs", Json.arr (res.2.map encVec)),
+       ("eigh_residual", floatToJson (resid / tmax)), ("eigh_orth", floatToJson orth)]
+    else []
+  pure <| Json.mkObj <| eigsFields ++ [
     ("id", (j.getObjVal? "id").toOption.getD Json.null),
     ("iters", Json.num (Lean.JsonNumber.fromNat o.iters)),
     ("iterations", Json.num (Lean.JsonNumber.fromNat o.info.iterations)),
